@@ -63,7 +63,13 @@ def check(tier):
         for ch in chunks(cases, 100):
             texts.append(print_program(run.merge_programs([c.prog for c in ch])))
             groups.append((name, ch))
-    for i, rc, se in pmap(_accept, list(enumerate(texts))):
+    dl = Deadline(420 if tier == "quick" else 3000)
+    nacc = 0
+    for i, rc, se in pmap_unordered(_accept, list(enumerate(texts))):
+        nacc += 1
+        if dl.elapsed() > 0.4 * dl.limit:
+            rep.capped("deadline: %d of %d batches of well-formed programs were run" % (nacc, len(texts)))
+            break
         rep.add("evaluations", len(groups[i][1]))
         if rc != 0:
             # bisect to single programs
@@ -90,7 +96,6 @@ def check(tier):
             inj.append((cls, desc + " in: " + c.desc, print_program(prog)))
     classes = {}
     done = 0
-    dl = Deadline(420 if tier == "quick" else 3000)
     results = (r for group in pmap_unordered(_reject_many, list(chunks([(i, t[2]) for i, t in enumerate(inj)], 48))) for r in group)
     for k, (i, rc, se, created) in enumerate(results):
         done += 1
